@@ -213,3 +213,115 @@ Proof.
   unfold one_sample at 1. cbn [fst snd].
   destruct (one_sample_gen matches rules bufs scope_id m sig g ad (Z.to_nat (k + 1)) k s1); cbn [bind]; [apply IH|reflexivity].
 Qed.
+
+(* ---------------- C10: calibration records what quantization will ask for ---------------- *)
+Section Covers.
+  Variable matches : Z -> Z -> bool.
+  Variable rules : state.
+  Variable bufs : list bufval.
+  Variable scope_id : Z -> list stok -> Z.
+  Notation sample_step := (sample_step matches rules bufs).
+  Notation selected := (selected matches rules).
+  Notation inner := (inner).
+
+  Definition has_key (s : qstore) (n : name_t) : Prop := qs_get s n <> None.
+
+  Lemma has_key_set s n v n2 : has_key s n2 -> has_key (qs_set s n v) n2.
+  Proof.
+    unfold has_key. intros H. destruct (name_eqb2 n2 n) eqn:E.
+    - apply name_eqb2_eq in E. subst. rewrite qs_get_set_same. discriminate.
+    - rewrite qs_get_set_other; [exact H|]. intros ->. rewrite name_eqb2_refl in E. discriminate.
+  Qed.
+  Lemma has_key_set_same s n v : has_key (qs_set s n v) n.
+  Proof. unfold has_key. rewrite qs_get_set_same. discriminate. Qed.
+
+  Lemma inner_fold_keys es : forall s upd s' upd',
+    fold_left (inner) es (s, upd) = (s', upd') ->
+    (forall n, In n upd -> has_key s n) ->
+    (forall n, In n upd' -> has_key s' n) /\ (forall n, has_key s n -> has_key s' n).
+  Proof.
+    induction es as [|e es IH]; intros s upd s' upd' H Hu; cbn [fold_left] in H.
+    - inversion H; subst. auto.
+    - unfold inner at 2 in H. destruct (existsb (name_eqb2 (fst e)) upd).
+      + eapply IH; eassumption.
+      + destruct (qs_get s (fst e)) eqn:Eg.
+        * destruct (IH _ _ _ _ H) as [A B].
+          { intros n [<-|Hn]; [apply has_key_set_same|apply has_key_set; apply Hu; exact Hn]. }
+          split; [exact A|intros n Hn; apply B; apply has_key_set; exact Hn].
+        * destruct (IH _ _ _ _ H) as [A B].
+          { intros n [<-|Hn]; [apply has_key_set_same|apply has_key_set; apply Hu; exact Hn]. }
+          split; [exact A|intros n Hn; apply B; apply has_key_set; exact Hn].
+  Qed.
+
+  Lemma fold_keys g k : forall ops s upd s' upd',
+    foldM (sample_step g k) ops (s, upd) = Ok (s', upd') ->
+    (forall n, In n upd -> has_key s n) ->
+    (forall n, In n upd' -> has_key s' n) /\ (forall n, has_key s n -> has_key s' n).
+  Proof.
+    induction ops as [|op ops IH]; intros s upd s' upd' H Hu; cbn [foldM] in H.
+    - inversion H; subst. auto.
+    - destruct (sample_step g k (s, upd) op) as [[s1 upd1]|] eqn:E; cbn [bind] in H; [|discriminate].
+      assert (H1 : (forall n, In n upd1 -> has_key s1 n) /\ (forall n, has_key s n -> has_key s1 n)).
+      { rewrite sample_step_unfold in E. destruct (selected op) as [[[a c] o]|]; [|inversion E; subst; auto].
+        destruct (algname_of a) as [a'|]; cbn [bind] in E; [|discriminate].
+        destruct (negb (is_op_registered (AK a') o)); [discriminate|].
+        destruct (collect_op bufs (sg_tensors g) op a' k) as [es|]; cbn [bind] in E; [|discriminate].
+        inversion E as [E1]. eapply inner_fold_keys; eassumption. }
+      destruct H1 as [A1 B1]. destruct (IH _ _ _ _ H A1) as [A B]. split; [exact A|intros n Hn; apply B; apply B1; exact Hn].
+  Qed.
+
+  (* names collected for one op by the min/max algorithm: every present,
+     non-constant operand or result *)
+  Lemma fold_set_keys : forall (es : list (name_t * qval)) acc n,
+    (has_key acc n \/ In n (map fst es)) ->
+    has_key (fold_left (fun acc e => qs_set acc (fst e) (snd e)) es acc) n.
+  Proof.
+    induction es as [|e es IH]; intros acc n H; cbn [fold_left].
+    - destruct H as [H|[]]. exact H.
+    - apply IH. destruct H as [H|[<-|H]]; [left; apply has_key_set; exact H|left; apply has_key_set_same|right; exact H].
+  Qed.
+
+  Lemma has_key_in_fst (s : qstore) n : has_key s n -> In n (map fst s).
+  Proof.
+    unfold has_key. induction s as [|[k v] s IH]; cbn; [congruence|].
+    destruct (name_eqb2 k n) eqn:E; [intros _; left; apply name_eqb2_eq; exact E|intros H; right; apply IH; exact H].
+  Qed.
+
+  Lemma collect_op_covers ts op k es x t :
+    collect_op bufs ts op Alg_MIN_MAX_UNIFORM_QUANT k = Ok es ->
+    In x (present (co_ins op) ++ present (co_outs op)) -> py_index ts x = Ok t -> is_const bufs t = false ->
+    In (tname t) (map fst es).
+  Proof.
+    unfold collect_op. intros H Hx Ht Hc.
+    match type of H with bind ?m _ = _ => destruct m as [r|] eqn:E end; cbn [bind] in H; [|discriminate].
+    inversion H; subst. apply has_key_in_fst. apply fold_set_keys. right.
+    clear H. revert r E. induction (present (co_ins op) ++ present (co_outs op)) as [|y l IH]; intros r E; [destruct Hx|].
+    cbn [mapM] in E. destruct (py_index ts y) as [ty|] eqn:Ey; cbn [bind] in E; [|discriminate].
+    match type of E with bind ?m _ = _ => destruct m as [e1|] eqn:E1 end; cbn [bind] in E; [|discriminate].
+    destruct (mapM _ l) as [rs|] eqn:E2; cbn [bind] in E; [|discriminate]. inversion E; subst. cbn [concat].
+    rewrite map_app. apply in_app_iff. destruct Hx as [->|Hx].
+    - left. rewrite Ht in Ey. inversion Ey; subst ty. rewrite Hc in E1. inversion E1; subst. cbn. left. reflexivity.
+    - right. eapply IH; [exact Hx|reflexivity].
+  Qed.
+
+  (* after one sample, every runtime operand/result of every selected
+     min/max op of the calibrated subgraph has an entry *)
+  Theorem sample_covers m gi g ad copies k s s' op c o x t :
+    one_sample_gen matches rules bufs scope_id m gi g ad copies k s = Ok s' ->
+    In op (real_cops scope_id gi (m_opcodes m) g ad ++ concat (repeat (io_cops scope_id gi g) copies)) ->
+    selected op = Some (AK Alg_MIN_MAX_UNIFORM_QUANT, c, o) ->
+    In x (present (co_ins op) ++ present (co_outs op)) ->
+    py_index (sg_tensors g) x = Ok t -> is_const bufs t = false ->
+    has_key s' (tname t).
+  Proof.
+    unfold one_sample_gen. intros H Hin Hsel Hx Ht Hc.
+    match type of H with bind ?f _ = _ => destruct f as [[sf uf]|] eqn:E end; cbn [bind] in H; [|discriminate].
+    inversion H; subst s'. cbn [fst].
+    destruct (fold_covers matches rules bufs _ _ _ _ _ _ _ E) as [_ Hcov].
+    destruct (Hcov _ Hin) as (ns & Hcon & Hns).
+    destruct (fold_keys _ _ _ _ _ _ _ E) as [Hk _]; [intros n []|].
+    apply Hk. apply Hns. unfold contributes in Hcon. rewrite Hsel in Hcon.
+    destruct Hcon as (a' & es & Ea & _ & Ec & ->). cbn in Ea. inversion Ea; subst a'.
+    eapply collect_op_covers; eassumption.
+  Qed.
+End Covers.
